@@ -8,15 +8,19 @@ def run_part(c):
         "prim: from valid encodings of put-call scripts: every truncation, a bit flip at every position of the first 64 bytes, "
         "every length/count field set to -1, -2, 0, max, remainder, remainder+1 (int32/int16/varint/uvarint forms, non-canonical "
         "and overflowing varints, wrong CRCs), plus random bytes against random getter scripts at random offsets; decoded in a "
-        "child process under ulimit -v with a 10 s timeout; non-trivial = input longer than one byte; distinct = distinct (input, script)")
-    c.trust("harness go/harness/cmd/c10prim + shim go/shims/wire1_prim.go; child-process classification (died under ulimit -v = allocation, "
+        "child process under ulimit -v with a 10 s timeout; non-trivial = input longer than one byte; distinct = distinct (input, script) | "
+        "records: valid batches (all codecs) / message sets (compressed wrappers) / records, then every truncation, bit flips over the "
+        "first 64 bytes as they are and with the CRC recomputed, deeper flips inside compressed payloads with the CRC recomputed, batch "
+        "length / record count / header count / message length / key and value lengths set to -1, -2, 0, max, remainder, remainder+1, "
+        "payloads that decompress to nothing with a positive record count, control records, response / request headers, random bytes")
+    c.trust("harness go/harness/cmd/c10prim + shims go/shims/wire1_prim.go, wire1_records.go; child-process classification (died under ulimit -v = allocation, "
             "TotalAlloc delta > 64 MiB = allocation, recovered panic, 10 s timeout = hang)")
     c.trust("Coq 8.16.1 kernel + vm_compute (evaluation of the model on the harness cases)")
     c.assume("64-bit platform (Go int = int64); slices handed to realDecoder have capacity = length")
     b = c.go_build("c10prim")
     if not b:
         return
-    args = ["-n", "20", "-nb", "16"] if c.tier == "quick" else ["-n", "400", "-nb", "0", "-allbits"]
+    args = ["-n", "16", "-nb", "12", "-nrec", "8"] if c.tier == "quick" else ["-n", "400", "-nb", "0", "-nrec", "150", "-allbits"]
     rc, out = c.run([b, "-out", c.build, "-seed", str(c.seed)] + args, timeout=2400)
     if rc != 0:
         c.break_("corr", "c10prim harness run failed", out)
